@@ -114,6 +114,17 @@ func anyTimeout(outs []runOut) bool {
 	return false
 }
 
+// anyMemoryGuard: the interpreter's memory guard looks at the heap of the whole process, so whether it refuses a
+// large allocation is not a function of the program: a run it stopped decides nothing in a differential monitor.
+func anyMemoryGuard(outs []runOut) bool {
+	for _, o := range outs {
+		if strings.HasPrefix(o.panicked, "would exceed memory requesting") {
+			return true
+		}
+	}
+	return false
+}
+
 func joinInputs(in []string) string { return strings.Join(in, "\n---\n") }
 
 // shrinkInputs removes inputs while fails() keeps holding.
